@@ -359,6 +359,30 @@ pub fn c10_case(fam: &str, idx: usize, seed: u64) -> Option<Case> {
             cs.info.hyp = black == 0;
             Some(cs)
         }
+        "suspended" => {
+            // the user suspends the transaction at one entity and, a little later, cancels it there without resuming
+            let mut rng = Rng::derive(seed, 1003, idx as u64);
+            let mode = idx % 3;
+            let who = (idx / 3) % 2;
+            let mut k = Knobs::base();
+            k.seg = 32;
+            k.mode = if modes[mode].0 { ack() } else { unack() };
+            k.closure = modes[mode].1;
+            k.nak = nak_procs()[rng.usize(4)];
+            let size = 160usize;
+            let c = content(&mut rng, size, idx as u64 % 5, 32, 0xC10);
+            let mut sc = two_party(&case, seed ^ idx as u64, &k, c);
+            let n0 = first_pass_len(size, 32);
+            let at = rng.usize(n0 + 1);
+            let trig = if rng.bool() { Trigger::AfterEmit(0, at) } else { Trigger::AfterArrive(1, at.min(n0 - 1)) };
+            sc.scripts.push(Script { trig: trig.clone(), delay_ms: 1 + rng.below(800), act: Act::Prim(who, PrimKind::Cancel, 0) });
+            sc.scripts.push(Script { trig, delay_ms: 0, act: Act::Prim(who, PrimKind::Suspend, 0) });
+            if rng.chance(1, 3) {
+                sc.rules.push(Rule { from: 0, to: 1, m: Matcher::Nth(rng.usize(n0)), a: Action::Drop });
+            }
+            let desc = format!("{} size={} suspend at e{} {:?}, cancel there {} ms later (no resume) faults=[{}]", k.describe(), size, who, sc.scripts[0].trig, sc.scripts[0].delay_ms, rules_desc(&sc.rules));
+            Some(Case::from(sc, &k, desc, true))
+        }
         "replay" => {
             // the cancel handshake completes; later the link re-delivers the whole first pass (metadata, data,
             // EOF) of the cancelled transaction, as a long-delayed duplicate would
@@ -536,7 +560,7 @@ pub fn run_c10(tier: &str, seed: u64, replay: Option<&str>) -> (Meta, Report) {
     let meta = Meta {
         property: "C10",
         level: "fault_enumeration",
-        rule: "sys = Cancel issued at the sender or at the receiver after EVERY emission of the sender, EVERY arrival at the receiver and each of the first three arrivals at the sender, for a 4-segment and an empty file x {ack (deferred/immediate NAK), unack, unack+closure} x {no loss, loss of the 1st EOF, 2nd EOF, 1st/2nd ACK(EOF), 1st Finished, 1st ACK(Finished), 2nd or 4th file-data PDU} plus peer never heard again after the cancel (complete; quick tier takes every 3rd case by seed); rand = random sizes/indices/delays with extra dup/delay faults; replay = the cancel handshake completes and 0.2-60 s later the sender's whole first pass is delivered again (long-delayed duplicates). distinct_nontrivial = distinct (config, size, event-order) signatures among runs in which the cancel reached a live transaction.".into(),
+        rule: "sys = Cancel issued at the sender or at the receiver after EVERY emission of the sender, EVERY arrival at the receiver and each of the first three arrivals at the sender, for a 4-segment and an empty file x {ack (deferred/immediate NAK), unack, unack+closure} x {no loss, loss of the 1st EOF, 2nd EOF, 1st/2nd ACK(EOF), 1st Finished, 1st ACK(Finished), 2nd or 4th file-data PDU} plus peer never heard again after the cancel (complete; quick tier takes every 3rd case by seed); rand = random sizes/indices/delays with extra dup/delay faults; suspended = the transaction is suspended at the entity and cancelled there a little later without being resumed; replay = the cancel handshake completes and 0.2-60 s later the sender's whole first pass is delivered again (long-delayed duplicates). distinct_nontrivial = distinct (config, size, event-order) signatures among runs in which the cancel reached a live transaction.".into(),
         exhaustive: thorough,
         assumptions: vec!["a cancel may lose the race against completion: the cancel-condition rule is applied only when the receiver never reported a successful delivery".into(), "in unacknowledged mode without closure a receiver-side cancel cannot be signalled to the sender; only termination and the file rule are judged there".into()],
         require: vec![("c10_cancels:sender".into(), 150), ("c10_cancels:receiver".into(), 150), ("c10_checked:peer-reports-cancel".into(), 40), ("c10_checked:nothing-delivered-after-cancel-report".into(), 100)],
@@ -555,6 +579,9 @@ pub fn run_c10(tier: &str, seed: u64, replay: Option<&str>) -> (Meta, Report) {
     let nr = if thorough { 400_000 } else { 3_000 };
     rep.merge(run_cases(nr, "c10-rand", move |i| c10_case("rand", i, seed), judge_c10));
     rep.add("cases:rand", nr as u64);
+    let nsu = if thorough { 60_000 } else { 1_000 };
+    rep.merge(run_cases(nsu, "c10-suspended", move |i| c10_case("suspended", i, seed), judge_c10));
+    rep.add("cases:suspended", nsu as u64);
     let np = if thorough { 20_000 } else { 300 };
     rep.merge(run_cases(np, "c10-replay", move |i| c10_case("replay", i, seed), judge_c10));
     rep.add("cases:replay", np as u64);
